@@ -27,3 +27,24 @@ Print Assumptions C09_no_hidden_aliasing.
 Example C09_ex :
   data (scatter {| shape := [4]; data := [10; 11; 12; 13]%Z |} [[1]; [3]] (fun p => (100 + Z.of_nat p)%Z) 0%Z) = [10; 100; 12; 101]%Z.
 Proof. reflexivity. Qed.
+
+(* n-D: for every element type, every tensor, every rank and every index tuple of integers,
+   in-bounds slices (any step sign), None and — through C08_getitem_nd_ellipsis — an Ellipsis:
+   the lowering of x[index] = v (ScatterND over getitem(ndindex(shape), index)) succeeds, keeps the
+   shape, gives the k-th element NumPy's left-to-right semantics addresses (row-major over the
+   selection) the k-th update value, and changes nothing else. *)
+From ND Require Import Ndx.Index Ndx.GetItem Ndx.GetItemProof Ndx.SetItemProof.
+Theorem C09_setitem_nd : forall (A : Type) (t : tensor A) (index : list item) (upd : nat -> A) (d : A) (o : list nat),
+  valid index (shape t) -> np_shape index (shape t) = Some o ->
+  exists r, ndx_setitem t index upd d = Done r /\ shape r = shape t /\
+    (forall oidx, Tensor.in_bounds o oidx -> get r (np_source index (shape t) oidx) d = upd (ravel o oidx)) /\
+    (forall idx, Tensor.in_bounds (shape t) idx ->
+       (forall oidx, Tensor.in_bounds o oidx -> np_source index (shape t) oidx <> idx) -> get r idx d = get t idx d).
+Proof. exact @setitem_nd. Qed.
+Print Assumptions C09_setitem_nd.
+
+(* the addressed positions are pairwise distinct: no element is written twice *)
+Theorem C09_addressed_positions_distinct : forall index sh o i1 i2, valid index sh -> np_shape index sh = Some o ->
+  Tensor.in_bounds o i1 -> Tensor.in_bounds o i2 -> np_source index sh i1 = np_source index sh i2 -> i1 = i2.
+Proof. exact np_source_inj. Qed.
+Print Assumptions C09_addressed_positions_distinct.
